@@ -59,6 +59,16 @@ func (c *Client) Handshake() error {
 	return nil
 }
 
+// SkipHandshakeReply tells the re-framer that the first 8 bytes of the stream are the handshake
+// reply (used when the handshake was sent as raw bytes).
+func (c *Client) SkipHandshakeReply() {
+	c.mu.Lock()
+	if c.parsed < 8 {
+		c.parsed = 8
+	}
+	c.mu.Unlock()
+}
+
 func (c *Client) NewID() uint32 {
 	c.mu.Lock()
 	defer c.mu.Unlock()
